@@ -420,9 +420,10 @@ def rule_r_kind(prog, res):
         bym = {}
         for bits, meth, f in lst:
             bym.setdefault(meth, []).append((bits, f))
-        res.ob("R-kind", "%s | four methods x five widths" % kind, len(lst) == 20 and all(len(v) == 5 for v in bym.values()),
+        known = {m_: v for m_, v in bym.items() if m_ in ("sign_fix", "sign_fix_rev", "u8_cast", "val_cast")}
+        res.ob("R-kind", "%s | four methods x five widths" % kind, len(known) == 4 and all(len(v) == 5 for v in known.values()),
                "found %d functions" % len(lst))
-        for meth, fs in sorted(bym.items()):
+        for meth, fs in sorted(known.items()):
             sigs = {}
             for bits, f in fs:
                 if bits == 8 and meth in ("u8_cast", "val_cast"):
